@@ -504,7 +504,8 @@ def path_summary(prog, f):
             if len(c) > 3 and _belief_edge(f, c[3][0]):
                 continue
             e = strip(c[0])
-            if e[0] == "discr":
+            a0 = bool_atom(c) if e[0] == "discr" else None
+            if e[0] == "discr" and not (a0 is not None and a0[0] != "truth"):
                 # as the set of admitted variants, so that `matches!`, `if let` and an exhaustive `match` read alike
                 ty = None
                 inner = strip(e[1])
